@@ -3,12 +3,9 @@ Line-protocol driver: one JSON request per line on stdin, one JSON response per
 line on stdout.  Evaluates the definitions of `AnnetModel/Model` — the same
 definitions the theorems in `AnnetModel/Props` are about.  Imports no Mathlib.
 -/
-import AnnetModel.Glue.C05
+import AnnetModel.Glue.All
 
 open Lean Annet.Glue
-
-def allHandlers : List (String × Handler) :=
-  Annet.Glue.C05.handlers
 
 def respond (line : String) : String :=
   match Json.parse line with
